@@ -31,13 +31,21 @@ RULE = ("addresses x ports x recovery mechanism: IPv4/IPv6 destinations = all-ze
         "each sending to 2-5 destinations (same host / other port incl. byte-swapped twins 53/13568, 0x1234/0x3412, ports 0, 1, 255, 256, "
         "65535; other host / same port; both families), interleaved, with idle gaps around 30 s, through the real onaccept_udp + "
         "tproxy.recv_udp on kernel-layout control messages and a real Mux: the 'ip,port,' header of EVERY UDP_DATA message must name the "
-        "destination of THAT datagram; the same frames through the real server.main: every sendto goes there")
+        "destination of THAT datagram; the same frames through the real server.main: every sendto goes there; the listener of all "
+        "datagram cases answers recvmsg() as the kernel does (control message cut to the control buffer the code offers, MSG_CTRUNC: "
+        "set for every IPv6 datagram because struct sockaddr_in6 is 28 bytes and recv_udp offers CMSG_SPACE(24); flow labels and "
+        "scope ids in the kernel's sockaddr_in6); on every run the fake is compared with the running kernel (loopback sockets, "
+        "IP(V6)_RECVORIGDSTADDR, control buffers of 0..128 bytes, one and several messages) and the real recv_udp is run on real "
+        "loopback datagrams of both families")
 TRUSTED_BASE = [
     "modelled, not verified: kernel layouts struct sockaddr_in / sockaddr_in6 and the IP_ORIGDSTADDR / IPV6_ORIGDSTADDR control messages "
     "(Model/Addr.v sockaddr_in, sockaddr_in6) - compared with a real Linux kernel in a namespace in the thorough tier",
     "modelled, not verified: CPython 3.12 struct ('!2xH4s', '!2xH4x16s', '=HH'), bytes %-formatting, int(), str/bytes split/strip/startswith, "
     "ipaddress.IPv4Address/IPv6Address.__str__ (3.12: no dotted tail for ::ffff:a.b.c.d; 3.13 prints one), glibc inet_ntop/inet_pton "
     "(dotted tail for ::a.b.c.d / ::ffff:a.b.c.d), socket.htons, BufferedReader/BytesIO.readline([limit]) - all differential-tested on every run",
+    "modelled, not verified: Linux put_cmsg (Model/Addr.v put_cmsgs = dgram_common.kernel_recvmsg): a control message that does not fit is "
+    "cut to the room left and MSG_CTRUNC is set - compared with the running kernel on every run (82 loopback probes), skipped with a "
+    "note if the sandbox refuses the sockets",
     "big-endian hosts are simulated by replacing tproxy's struct '=' by '>' and htons by the identity (no such host available)",
     "the server's outgoing socket is a recording object whose connect() validates the address with a numeric getaddrinfo restricted to "
     "the socket's family (what CPython's connect does before the system call) and then reports EINPROGRESS",
@@ -177,18 +185,32 @@ class FakeSock:
 
 
 class FakeListener:
-    def __init__(self, family, sock=None, src=("192.0.2.9", 40000), msg=None):
+    """msg = (payload, control messages).  kernel=True: the control messages are what the KERNEL holds for the datagram
+    (in full); recvmsg stores them into the control buffer the caller offers exactly as Linux put_cmsg does - cut to the
+    room left, MSG_CTRUNC (dgram_common.kernel_recvmsg, compared with the running kernel on every run).  kernel=False:
+    the list is handed over as it is with flags 0 (decoder-level cases only: lists no kernel produces for the buffer
+    recv_udp offers - unrelated messages in front, arbitrary bytes)."""
+
+    def __init__(self, family, sock=None, src=("192.0.2.9", 40000), msg=None, kernel=False):
         self.family = family
         self.sock = sock
         self.src = src
         self.msg = msg
+        self.kernel = kernel
+        self.anc_asked = None
+        self.delivered = None
 
     def accept(self):
         return self.sock, self.src
 
-    def recvmsg(self, bufsize, ancbufsize):
+    def recvmsg(self, bufsize, ancbufsize=0, flags=0):
         data, anc = self.msg
-        return data, anc, 0, self.src
+        self.anc_asked = ancbufsize
+        if self.kernel:
+            self.delivered = dc.kernel_recvmsg(data, anc, self.src, bufsize, ancbufsize)
+        else:
+            self.delivered = (data, anc, 0, self.src)
+        return self.delivered
 
 
 class FakeMux:
@@ -869,42 +891,64 @@ def correspondence(ctx):
             for p in PORTS[:14]:
                 ucases.append((AF_INET, A4[40], p))
                 ucases.append((AF_INET6, A6[150], p))
+            # the messages as the KERNEL holds them: struct sockaddr_in (16 bytes) / the whole struct sockaddr_in6 (28 bytes,
+            # with the flow label of the packet and - link-local destinations - the interface as scope id)
+            FLOWS = ["00000000", "00000000", "000fffff", "00012345", "60000000"]
+            SCOPES = ["00000000", "00000000", "02000000", "00000002", "ffffffff"]
             lay = ctx.run_driver([("SA4 %s %s %d" % (endian, hx(a), p)) if fam == AF_INET else
-                                  ("SA6 %s %s %d 00000000 00000000" % (endian, hx(a), p)) for fam, a, p in ucases])
+                                  ("SA6 %s %s %d %s %s" % (endian, hx(a), p, FLOWS[j % 5], SCOPES[(j // 5) % 5]))
+                                  for j, (fam, a, p) in enumerate(ucases)])
+            hdr_n, al_n = socket.CMSG_LEN(0), socket.CMSG_SPACE(1) - socket.CMSG_LEN(0)
             lines, impls, descs = [], [], []
             u_lines, u_impls, u_descs = [], [], []
+            asked = set()
             for j, ((fam, a, p), layout) in enumerate(zip(ucases, lay)):
                 raw = unhx(layout)
-                if fam == AF_INET6 and j % 2:
-                    raw = raw[:24]              # what Linux delivers into a CMSG_SPACE(24) buffer
                 lvl, typ = (0, 20) if fam == AF_INET else (41, 74)
                 anc = [(lvl, typ, raw)]
-                if j % 4 == 0:
-                    anc = [(1, 2, b"\x00" * 12), (0, 8, b"\x01\x00\x00\x00")] + anc     # unrelated control messages first
+                # 3 of 4 cases: a kernel-like socket (the message is cut to the control buffer recv_udp offers and MSG_CTRUNC
+                # is reported: for EVERY IPv6 datagram, Props/C05.v c05_cmsg6_kernel_always_ctrunc).  1 of 4: decoder level,
+                # unrelated control messages in front (c05_cmsg4 / c05_cmsg6 with a non-empty `pre`), handed over as they are
+                kern = j % 4 != 0
+                if not kern:
+                    if fam == AF_INET6 and j % 8:
+                        raw = raw[:24]
+                    anc = [(1, 2, b"\x00" * 12), (0, 8, b"\x01\x00\x00\x00"), (lvl, typ, raw)]
                 payload = bytes(rng.randrange(256) for _ in range(rng.choice([0, 1, 5, 40]))) if j % 3 else b"a,b,,c,"
-                lst = FakeListener(fam, msg=(payload, anc))
+                lst = FakeListener(fam, msg=(payload, anc), kernel=kern)
+                how = "kernel-like socket" if kern else "decoder level"
+                rep = {"endian": endian, "family": fam, "addr": hx(a), "port": p, "cmsg": hx(raw), "kernel_like_socket": kern}
                 try:
                     src, dst, data = world.tproxy.recv_udp(lst, 4096)
                     r = "OK NONE" if dst is None else "OK %s %d" % (hx(dst[0]), dst[1])
                     if dst is None or pton(socket.AF_INET if fam == AF_INET else socket.AF_INET6, dst[0]) != a \
                             or dst[1] != p or "," in dst[0] or data != payload:
-                        ctx.violation("tproxy.recv_udp does not return the destination in the control message (%s host)" % endian,
-                                      {"endian": endian, "family": fam, "addr": hx(a), "port": p, "cmsg": hx(raw), "got": repr(dst)})
+                        ctx.violation("tproxy.recv_udp does not return the destination in the control message (%s host, %s)" % (endian, how),
+                                      dict(rep, got=repr(dst), delivered_by_recvmsg=repr(lst.delivered[1:3])))
                 except Exception as e:
                     r = exc_name(e)
-                    ctx.violation("tproxy.recv_udp failed on a well-formed control message (%s host)" % endian,
-                                  {"endian": endian, "family": fam, "addr": hx(a), "port": p, "cmsg": hx(raw), "got": r})
+                    ctx.violation("tproxy.recv_udp failed on a well-formed control message (%s host, %s)" % (endian, how), dict(rep, got=r))
                 ancs = " ".join("%d:%d:%s" % (l, t, hx(d)) for l, t, d in anc)
-                lines.append("CMSG %s %s" % (endian, ancs)); impls.append(r); descs.append(("cmsg", endian, fam, a, p, len(raw)))
+                if kern:
+                    asked.add(lst.anc_asked)
+                    ct = 1 if lst.delivered and lst.delivered[2] & socket.MSG_CTRUNC else 0
+                    lines.append("KCMSG %s %d %d %d %s" % (endian, hdr_n, al_n, lst.anc_asked or 0, ancs)); impls.append("%s CTRUNC=%d" % (r, ct))
+                    ctx.count("cmsg_kernel_like_v%d_%s_ctrunc%d" % (4 if fam == AF_INET else 6, endian, ct))
+                    dlv = lst.delivered[1] if lst.delivered else []
+                    ancs = " ".join("%d:%d:%s" % (l, t, hx(d)) for l, t, d in dlv)
+                else:
+                    lines.append("CMSG %s %s" % (endian, ancs)); impls.append(r)
+                descs.append(("cmsg", endian, fam, a, p, len(raw), kern))
                 ctx.count("cmsg_v%d_%s" % (4 if fam == AF_INET else 6, endian))
                 # through the real onaccept_udp and the real server udp_req
                 world.client.udp_by_src.clear()
                 mux = FakeMux(11)
-                world.client.onaccept_udp(FakeListener(fam, msg=(payload, anc)), world.m_tproxy, mux, [])
+                world.client.onaccept_udp(FakeListener(fam, msg=(payload, anc), kernel=kern), world.m_tproxy, mux, [])
                 datas = [d for c, cmd, d in mux.sent if cmd == world.ssnet.CMD_UDP_DATA]
                 opens = [d for c, cmd, d in mux.sent if cmd == world.ssnet.CMD_UDP_OPEN]
                 if len(datas) != 1 or opens != [b"%d" % fam]:
-                    ctx.violation("onaccept_udp did not send exactly one UDP_OPEN + UDP_DATA", {"sent": repr(mux.sent)[:300]})
+                    ctx.violation("onaccept_udp did not send exactly one UDP_OPEN + UDP_DATA for a captured datagram (%s)" % how,
+                                  dict(rep, sent=repr(mux.sent)[:300]))
                     continue
                 ur = run_udp_req(world, datas[0])
                 if ur.startswith("OK "):
@@ -920,6 +964,10 @@ def correspondence(ctx):
                     ctx.violation("server could not decode the UDP header", {"frame": hx(datas[0]), "got": ur})
                 u_lines.append("E2EUDP %s %s %s" % (endian, hx(payload), ancs)); u_impls.append(ur); u_descs.append(("udp", endian, fam, a, p, payload))
             batch(ctx, "cmsg %s" % endian, lines, impls, descs, sample_every=307)
+            # the control buffer the real code offers is the one the theorems speak about: CMSG_SPACE(ANC_DATA_ROOM)
+            want_room = int(ctx.run_driver(["CSPACE %d %d 24" % (hdr_n, al_n)])[0])
+            if asked != {want_room} or want_room != socket.CMSG_SPACE(24):
+                ctx.disagree("control buffer offered by recv_udp", "recvmsg(4096, ancbufsize)", sorted(asked, key=repr), want_room)
             batch(ctx, "end-to-end udp %s" % endian, u_lines, u_impls, u_descs, sample_every=409)
             # malformed control messages
             lines, impls, descs = [], [], []
@@ -1166,6 +1214,28 @@ def correspondence(ctx):
         ctx.count("pf_reply_" + r.split(" ")[0])
     batch(ctx, "pf reply decode", lines, impls, descs)
 
+    # ---- every run: the running kernel on loopback sockets (no privilege, no namespace needed; skipped with a note when the
+    # sandbox refuses): (i) the fake recvmsg of the cases above stores control messages exactly like the kernel, for every
+    # buffer size around the boundaries, one and several messages; (ii) the real tproxy.recv_udp on real datagrams of both
+    # families returns the address they were sent to
+    kc = dc.kernel_cmsg_check()
+    ctx.extra["kernel_control_buffer_check"] = {k: (v if k != "differences" else v[:4]) for k, v in kc.items()}
+    ctx.count("kernel_control_buffer_cases", kc["cases"])
+    for d in kc["differences"][:3]:
+        ctx.disagree("fake recvmsg vs the running kernel (control-message truncation)", d, d["kernel"], d["fake"])
+    if kc["available"] and kc["ctrunc_v6_at_space24"] is False:
+        ctx.disagree("MSG_CTRUNC for sockaddr_in6 in CMSG_SPACE(24)", "loopback probe", "flag not set", "c05_cmsg6_kernel_always_ctrunc")
+    nk, badk, notesk = dc.kernel_recv_udp_check()
+    ctx.count("kernel_recv_udp_loopback_datagrams", nk)
+    for d in badk:
+        ctx.violation("tproxy.recv_udp on a real loopback datagram (running kernel, IP%s_RECVORIGDSTADDR) does not return the "
+                      "destination the datagram was sent to" % ("V6" if d["family"] == socket.AF_INET6 else ""),
+                      dict(d, oracle="real-kernel-recv-udp"))
+    for n_ in kc["notes"] + notesk:
+        ctx.notes.append(n_)
+    for k in range(nk):
+        ctx.case(("kernel-loopback-recv-udp", k), nontrivial=True)
+
     # ---- thorough: the modelled layouts against a real kernel --------------------------------
     if not quick:
         kernel_validation(ctx, world)
@@ -1328,6 +1398,10 @@ def replay(ctx, rp):
     r = rp.get("replay", {})
     if r.get("oracle") == "udp-destinations":
         return dc.replay_c05_dgram(rp)
+    if r.get("oracle") == "real-kernel-recv-udp":
+        n, bad, notes = dc.kernel_recv_udp_check()
+        print("real loopback datagrams: %d checked ->" % n, bad, notes)
+        return bool(bad)
     world = World()
     if "connect_payload" in r:
         payload = r["connect_payload"].encode("ascii")
@@ -1356,7 +1430,9 @@ def replay(ctx, rp):
         try:
             lvl, typ = (0, 20) if fam == AF_INET else (41, 74)
             try:
-                src, dst, data = world.tproxy.recv_udp(FakeListener(fam, msg=(b"x", [(lvl, typ, unhx(r["cmsg"]))])), 4096)
+                lst = FakeListener(fam, msg=(b"x", [(lvl, typ, unhx(r["cmsg"]))]), kernel=bool(r.get("kernel_like_socket")))
+                src, dst, data = world.tproxy.recv_udp(lst, 4096)
+                print("recvmsg(4096, %r) delivered %r" % (lst.anc_asked, lst.delivered[1:3]))
             except Exception as e:
                 print("recv_udp raised", repr(e))
                 return True
